@@ -14,14 +14,15 @@ def parseEntry : String → Option SpawnEntry
 
 def parseOp18 : String → Option Op18
   | "dropOwner" => some .dropOwner | "detach" => some .detach | "stop" => some .stop
-  | "call" => some .call | "join" => some .join | _ => none
+  | "call" => some .call | "join" => some .join | "joinCreate" => some .joinCreate
+  | "joinPoll" => some .joinPoll | "joinAwait" => some .joinAwait | "joinDrop" => some .joinDrop | _ => none
 
 def parseRuntime : String → Runtime
   | "smol" => .smol | "async" => .asyncStd | _ => .tokio
 
 def obsStr : Obs18 → String
   | .callOk => "callOk" | .callErr => "callErr" | .joinSome => "joinSome" | .joinNone => "joinNone"
-  | .joinNA => "joinNA"
+  | .joinNA => "joinNA" | .joinPending => "joinPending"
 
 /-- `sNN entry op,op => obs,obs` → verdict line -/
 def checkLine (r : Runtime) (line : String) : String :=
